@@ -59,7 +59,7 @@ ReqOk(req, kind) == \/ kind = "box"
                     \/ kind = "mut" /\ Range(req) \subseteq {"Ma", "Kid", "Rb"}
                     \/ kind = "ref" /\ Range(req) \subseteq {"Rb"}
 
-VARIABLES pay,      \* [Inst -> [st, pt, val, ival, drops, own]]   own: "env" (borrowable) | "obj"
+VARIABLES pay,      \* [Inst -> [st, pt, val, ival, ival2, drops, own]]   own: "env" (borrowable) | "obj"
           h,        \* [Handle -> handle record]
           cnt,      \* [Ctx -> Nat] strong count of the context
           envHolds, \* [Ctx -> BOOLEAN] the environment still holds its own reference (Base)
@@ -71,7 +71,7 @@ VARIABLES pay,      \* [Inst -> [st, pt, val, ival, drops, own]]   own: "env" (b
 
 vars == <<pay, h, cnt, envHolds, crel, leaked, nextInst, stack, last>>
 
-NoPay == [st |-> "none", pt |-> 0, val |-> 0, ival |-> 0, drops |-> 0, own |-> "env"]
+NoPay == [st |-> "none", pt |-> 0, val |-> 0, ival |-> 0, ival2 |-> 0, drops |-> 0, own |-> "env"]
 NoHandle == [kind |-> "none", t |-> "none", tr |-> "", req |-> <<>>, inst |-> 0, ctx |-> 0]
 IsFree(x) == h[x].kind = "none"
 L(k, n) == [kind |-> k, n |-> n]
@@ -111,7 +111,8 @@ MTrait(m) == CASE m \in {"ra_get", "ra_mix"} -> "Ra" [] m = "rb_get" -> "Rb"
 NeedsMut(m) == m = "ma_add"
 PlainMethods == {"ra_get", "ra_mix", "rb_get", "ma_add", "ma_peek", "ob_peek"}
 
-FreshPay(pt, v, own) == [st |-> "live", pt |-> pt, val |-> v, ival |-> (v + 3) % Mod, drops |-> 0, own |-> own]
+(* a payload has its own register `val` and two inner values handed out by reference, each with a register *)
+FreshPay(pt, v, own) == [st |-> "live", pt |-> pt, val |-> v, ival |-> (v + 3) % Mod, ival2 |-> (v + 1) % Mod, drops |-> 0, own |-> own]
 DropPay(p, i) == [p EXCEPT ![i].st = "dropped", ![i].drops = @ + 1]
 AddRef(c) == IF c = 0 THEN cnt ELSE [cnt EXCEPT ![c] = @ + 1]
 SubRef(c) == IF c = 0 THEN cnt ELSE [cnt EXCEPT ![c] = @ - 1]
@@ -227,7 +228,7 @@ CloneObj(x, y) ==
   /\ Idle /\ ~IsFree(x) /\ IsFree(y) /\ "Clone" \in TraitsOf(x) /\ h[x].kind = "box" /\ nextInst <= MaxInst
   /\ LET i == h[x].inst IN
        pay' = [pay EXCEPT ![nextInst] = [st |-> "live", pt |-> pay[i].pt, val |-> pay[i].val, ival |-> pay[i].ival,
-                                          drops |-> 0, own |-> "obj"]]
+                                          ival2 |-> pay[i].ival2, drops |-> 0, own |-> "obj"]]
   /\ h' = [h EXCEPT ![y] = [h[x] EXCEPT !.inst = nextInst]]
   /\ cnt' = AddRef(h[x].ctx)
   /\ nextInst' = nextInst + 1
@@ -246,18 +247,32 @@ KidOwned(x, y) ==
 (* borrowed child: a wrapped &Ra / &mut Ma over the payload's inner value is written into the   *)
 (* parent's temporary return storage together with a context clone; one method is called on it.  *)
 (* Ideal: that clone is released again (no net change).  As implemented: it is never released.    *)
-KidBorrowed(x, which, m, a) ==
-  /\ Idle /\ ~IsFree(x) /\ "Kid" \in TraitsOf(x)
+(* sel = 0: the fixed accessor (kid_ref / kid_mut, always the first inner value); sel = 1, 2: the selecting accessor *)
+(* (kid_sel(k) / kid_sel_mut(k)) asked for the first / the second inner value.  Which inner value a borrowed wrapper  *)
+(* reaches is decided by THIS call, whatever earlier calls on the same object returned.                              *)
+KidBorrowed(x, which, sel, m, a) ==
+  /\ Idle /\ ~IsFree(x) /\ "Kid" \in TraitsOf(x) /\ sel \in {0, 1, 2}
   /\ \/ which = "ref" /\ m \in {"ra_get", "ra_mix"}
      \/ which = "mut" /\ m \in {"ma_add", "ma_peek"} /\ h[x].kind \in {"box", "mut"}
   /\ LET i == h[x].inst
          c == h[x].ctx IN
-       /\ pay' = [pay EXCEPT ![i].ival = EffVal(m, @, a)]
-       /\ last' = L("ret", EffRet(m, pay[i].ival, a))
+       /\ pay' = IF sel = 2 THEN [pay EXCEPT ![i].ival2 = EffVal(m, @, a)] ELSE [pay EXCEPT ![i].ival = EffVal(m, @, a)]
+       /\ last' = L("ret", EffRet(m, IF sel = 2 THEN pay[i].ival2 ELSE pay[i].ival, a))
        /\ IF c # 0 /\ "borrowed_child_ctx_leak" \in Deviations
             THEN cnt' = AddRef(c) /\ leaked' = [leaked EXCEPT ![c] = @ + 1]
             ELSE UNCHANGED <<cnt, leaked>>
   /\ UNCHANGED <<h, nextInst, stack>> /\ Keep
+
+(* a lending child (`type KView<'a>: Ra + 'a where Self: 'a; fn kid_view(&'a mut self) -> Self::KView<'a>`): an owned   *)
+(* wrapper that borrows from the parent.  It is an object of its own: it holds its own clone of the context while it    *)
+(* lives and releases exactly that clone when it goes.  One action: obtain it, observe the context count, call through  *)
+(* it, drop it; the count seen while the view lives is part of the outcome.                                             *)
+KidView(x, m, a) ==
+  /\ Idle /\ ~IsFree(x) /\ "Kid" \in TraitsOf(x) /\ h[x].kind \in {"box", "mut"} /\ m \in {"ra_get", "ra_mix"}
+  /\ LET i == h[x].inst
+         c == h[x].ctx IN
+       last' = L("view", EffRet(m, pay[i].ival, a) + 1000 * (IF c = 0 THEN 0 ELSE cnt[c] + 1))
+  /\ UNCHANGED <<pay, h, cnt, leaked, nextInst, stack>> /\ Keep
 
 (* ---------------- by-value (consuming) calls: ob_take, ob_into, ob_try ---------------- *)
 (* ob_try(self, fail) -> Result<wrapped child, ()>: "ob_try_ok" behaves as ob_into, "ob_try_err" consumes the  *)
@@ -350,7 +365,8 @@ Do(e) ==
   \/ e.op = "Upcast"      /\ Upcast(e.x)
   \/ e.op = "Clone"       /\ CloneObj(e.x, e.y)
   \/ e.op = "KidOwned"    /\ KidOwned(e.x, e.y)
-  \/ e.op = "KidBorrowed" /\ KidBorrowed(e.x, e.which, e.m, e.a)
+  \/ e.op = "KidBorrowed" /\ KidBorrowed(e.x, e.which, e.sel, e.m, e.a)
+  \/ e.op = "KidView"     /\ KidView(e.x, e.m, e.a)
   \/ e.op = "Consume"     /\ ConsumeBegin(e.x, e.m)
   \/ e.op = "ConsumeEnd"  /\ ConsumeCallerRelease(e.y)
   \/ e.op = "Drop"        /\ DropH(e.x)
@@ -359,7 +375,7 @@ Do(e) ==
 (* Observation                                                             *)
 (***************************************************************************)
 Proj ==
-  [ pay  |-> [i \in 1..(nextInst - 1) |-> <<pay[i].st, pay[i].val, pay[i].ival, pay[i].drops>>],
+  [ pay  |-> [i \in 1..(nextInst - 1) |-> <<pay[i].st, pay[i].val, pay[i].ival, pay[i].drops, pay[i].ival2>>],
     h    |-> [x \in Handle |-> [kind |-> h[x].kind, t |-> h[x].t, tr |-> h[x].tr, req |-> h[x].req,
                                  inst |-> h[x].inst, ctx |-> h[x].ctx]],
     cnt  |-> [c \in Ctx |-> cnt[c]],
